@@ -334,7 +334,8 @@ var guardSpec = []guardSpecEntry{
 	{"dataStore.waitingClients", gImmutable, "", "pointer set at creation; the table itself is DB-guarded"},
 	{"dataStore.multiLock", gAtomic, "", "re-entrancy token"},
 	{"dataStore.commandNumber", gAtomic, "", "command id counter"},
-	{"dataStoreCommand.*", gFree, "", "per-command object owned by the dispatching goroutine (EXEC rewrites id of its own queued contexts)"},
+	{"dataStoreCommand.id", gFree, "", "per-command object owned by the dispatching goroutine (EXEC rewrites id of its own queued contexts; rule R-C09-exclusive)"},
+	{"dataStoreCommand.ds", gImmutable, "", "the database a command is bound to is fixed when the command is prepared: EXEC locks exactly that database"},
 	// --- database table
 	{"dataStoreSet.dbs", gLocked, "dataStoreSet.mu", "database table shared by all connections and the saver"},
 	{"dataStoreSet.basePath", gImmutable, "", "set at construction"},
